@@ -55,7 +55,6 @@ PROPS = {
         unverified=[
             'that each of the ~290 rules reports a span with start <= end <= text length (match_to_lint / lint bodies are not under contract); run_on_chunk only guarantees them a non-empty in-bounds sub-slice of the chunk',
             'LintGroup::lint chunk-cache rebase call sites (LruCache, BTreeMap<String, Box<dyn Linter>>): only the pull/push arithmetic is proved (lemma_rebase, Span::pulled_by/pushed_by)',
-            'Suggestion::replace_with_match_case (iter_mut().zip())',
         ],
         assumptions=['Vec::extend specification (assume_specification); desugaring R1'],
     ),
